@@ -1,7 +1,7 @@
 #!/usr/bin/env python3
 """Applies every seeded change (seeded/<id>/<m>/patch.diff and seeded/reverted-fixes/F*.diff) to /repo in turn,
 runs the owning property's check (quick tier unless --tier is given), restores /repo, and writes selftest/RESULTS.md.
-usage: selftest/run_seeded.py [--tier quick] [--only C05,C06] [--out FILE]   (SEEDED_REPO=<checkout> keeps /repo untouched;
+usage: selftest/run_seeded.py [--tier quick] [--only C05,C06] [--rounds z,w,v,F] [--out FILE]   (SEEDED_REPO=<checkout> keeps /repo untouched;
 several instances on different checkouts can share the work, tools/merge_results.py joins their tables)"""
 import glob, json, os, re, subprocess, sys, time
 HERE = os.path.dirname(os.path.dirname(os.path.abspath(__file__)))
@@ -9,6 +9,7 @@ os.chdir(HERE)
 args = sys.argv[1:]
 tier = args[args.index("--tier") + 1] if "--tier" in args else "quick"
 only = set(args[args.index("--only") + 1].split(",")) if "--only" in args else None
+rounds = set(args[args.index("--rounds") + 1].split(",")) if "--rounds" in args else None   # first letters of the change names, e.g. z,w,v,F
 outfile = args[args.index("--out") + 1] if "--out" in args else "selftest/RESULTS.md"
 FIX_PROP = {"F1": "C05", "F2": "C06", "F3": "C16", "F4": "C19", "F5": "C20", "F6": "C20", "F7": "C17", "F8": "C20", "F9": "C09"}
 rows = []
@@ -21,6 +22,8 @@ for p in sorted(glob.glob("seeded/reverted-fixes/F*.diff")):
     jobs.append((FIX_PROP[f], f + " (fix reverted)", p, "original defect restored"))
 for pid, name, patch, summ in jobs:
     if only and pid not in only:
+        continue
+    if rounds and name[0] not in rounds:
         continue
     t0 = time.time()
     r = subprocess.run(["selftest/with_patch.sh", patch, "./check", pid, "--tier", tier], stdout=subprocess.PIPE, stderr=subprocess.PIPE, text=True)
